@@ -13,10 +13,13 @@ import (
 // ---- solids with dyadic geometry, defined everywhere
 
 // voxel3: voxel (i,j,k) occupies [i*v,(i+1)*v) x ... ; outside the grid is empty.
+// With closed set, the upper faces of the grid belong to the last voxel layer (the lattice layer at
+// Max is then inside the solid: the last inner layer of the scanners carries surface).
 type voxel3 struct {
-	n    [3]int
-	v    float64
-	bits []bool
+	n      [3]int
+	v      float64
+	bits   []bool
+	closed bool
 }
 
 func (s *voxel3) Min() model3d.Coord3D { return model3d.Coord3D{} }
@@ -25,6 +28,18 @@ func (s *voxel3) Max() model3d.Coord3D {
 }
 func (s *voxel3) Contains(c model3d.Coord3D) bool {
 	i, j, k := int(math.Floor(c.X/s.v)), int(math.Floor(c.Y/s.v)), int(math.Floor(c.Z/s.v))
+	if s.closed {
+		m := s.Max()
+		if c.X == m.X {
+			i--
+		}
+		if c.Y == m.Y {
+			j--
+		}
+		if c.Z == m.Z {
+			k--
+		}
+	}
 	if i < 0 || j < 0 || k < 0 || i >= s.n[0] || j >= s.n[1] || k >= s.n[2] {
 		return false
 	}
@@ -227,7 +242,7 @@ func (l *lattice3) mixedIn(i0, i1, j0, j1, k0, k1 int) bool {
 
 // idxRange recovers the lattice index range of a block from its (epsilon-grown) bounds.
 func idxRange(xs []float64, lo, hi float64) (int, int) {
-	i0 := sort.SearchFloat64s(xs, lo)                                           // first xs[i] >= lo
+	i0 := sort.SearchFloat64s(xs, lo)                                      // first xs[i] >= lo
 	i1 := sort.Search(len(xs), func(i int) bool { return xs[i] > hi }) - 1 // last xs[i] <= hi
 	return i0, i1
 }
@@ -371,12 +386,26 @@ func fnOf(tag string) string {
 func dy(c *hlib.Ctx, span int, bits uint) float64 { return c.Dyadic(span, bits) }
 
 func randVoxel3(c *hlib.Ctx, n [3]int, v float64) *voxel3 {
-	return &voxel3{n: n, v: v, bits: randBits(c, n[:], "c12.mc")}
+	closed := c.Rng.Intn(3) == 0
+	if closed {
+		c.Stat("c12.gen.closed_top_voxel_solids", 1)
+	}
+	return &voxel3{n: n, v: v, bits: randBits(c, n[:], "c12.mc"), closed: closed}
 }
 
 func runMC(c *hlib.Ctx) {
 	nSolids := c.N/6 + 2
 	for i := 0; i < nSolids; i++ {
+		if i%8 == 3 {
+			// coarse-to-fine with a large spacing ratio: the coarse surface is up to bigDelta/2 (several
+			// leaf blocks) away from the fine one, so the 2*sqrt(3)*bigDelta margin is really needed
+			delta := []float64{0.25, 0.125}[c.Rng.Intn(2)]
+			m := []int{6, 8}[c.Rng.Intn(2)]
+			n := [3]int{1 + c.Rng.Intn(3), 1 + c.Rng.Intn(3), 1 + c.Rng.Intn(3)}
+			emitMC(c, randVoxel3(c, n, float64(m)*delta), delta, false,
+				[]float64{float64(m) * delta, float64(m/2) * delta, float64(m) * delta}, "voxel_fat_c2f_high_ratio")
+			continue
+		}
 		switch c.Rng.Intn(10) {
 		case 0, 1, 2: // small voxel solids, voxel = lattice step
 			n := [3]int{1 + c.Rng.Intn(7), 1 + c.Rng.Intn(7), 1 + c.Rng.Intn(7)}
